@@ -228,11 +228,17 @@ def c10_sig(e, reason):
 def c10(ctx):
     thorough = ctx.tier == "thorough"
     V.mc(ctx, "MC_C10", cfg="MC_C10_thorough.cfg" if thorough else "MC_C10.cfg", workers=12, timeout=3000, xmx="12g")
+    # B2: TLC-simulated behaviours of the specification replayed on a real State
+    beh = os.path.join(ctx.dir, "c10.behaviours.ndjson")
+    V.tlc_emit(ctx, "Sim_C10", beh, simulate="num=%d" % (150 if thorough else 15),
+               extra=["-depth", "12", "-seed", str(ctx.seed)], timeout=1800)
+    V.table_compare(ctx, beh, name="behaviours", as_behaviours=True)
     summ = V.gen_traces(ctx, shards=12)
     V.validate(ctx, "Trace_C10", summ, c10_sig, par=12)
     return V.finish(ctx, "model_checking",
                     rule="MC: all ProcessDescriptor/Close histories to depth 4 (5) over a descriptor alphabet (7 (14) types x event id x PTS incl. none x segexp x signal id), ring length 2; "
-                         "C10's clauses as invariants and per-transition action properties. B3: every process-only history of length <= 2 (3) over a 50-descriptor alphabet and random histories "
+                         "C10's clauses as invariants and per-transition action properties. B2: TLC simulates behaviours of the specification (depth 12, 14 types) and prints the expected error class / closed ids / "
+                         "Open() ids of every call; the harness replays them step by step on a real scte35.State. B3: every process-only history of length <= 2 (3) over a 50-descriptor alphabet and random histories "
                          "(4..25 calls, 25 types, breakaway/resumption/explicit close/re-processing/ring eviction biased) on a real scte35.State; after every call the error class, "
                          "the ids returned closed and the ids listed by Open() are validated against Scte35State carried along the history. class = (op, type, result, #closed, #open)",
                     trace_module="Trace_C10", sigfn=c10_sig,
